@@ -231,7 +231,7 @@ def main():
             if st is None and os.path.exists(lc) and ("fatal error" in out or "SIGSEGV" in out or "unexpected signal" in out
                                                         or "panic:" in out or "SIGBUS" in out):
                 if "out of memory" in out and not plan.get("oom_is_violation"):
-                    inconclusive.append("%s shard %d: worker out of memory" % (j["test"], j["shard"]))
+                    inconclusive.append("%s shard %d: worker out of memory\n%s" % (j["test"], j["shard"], out[:1500]))
                     continue
                 rp = j["env"]["VERIF_REPLAY_OUT"]
                 try:
